@@ -374,10 +374,13 @@ pub fn decode(t: &mut Tape, tier: Tier) -> BufCase {
     if t.chance(1, 8) {
         v.rules.clear();
     }
+    // the enumeration is per byte: keep victim buffers small (no giant lines, at most 12 rules)
+    v.rules.retain(|r| r.len() < 160);
+    v.rules.truncate(12);
     let h = gen::full_case(t, &NetCfg { max_rules: 6, max_reqs: 1, ..Default::default() }, 3);
     let mut home = h.rules;
-    // removeparam rules do not survive the "reload own bytes" step (C08 known finding)
-    home.retain(|r| !r.contains("removeparam"));
+    home.retain(|r| r.len() < 160);
+    home.truncate(8);
     let mode = match tier {
         Tier::Quick => 0,
         Tier::Thorough => if t.chance(1, 4) { 1 } else { 0 },
@@ -454,7 +457,6 @@ pub fn check(ctx: &mut Ctx) {
     ctx.assumptions = vec![
         "shards run in child processes; a dead child is re-run on its last announced buffer with per-input tracing to find the culprit".into(),
         "allocation requests >= 1 GiB are refused by the harness allocator (the process then aborts, which is reported)".into(),
-        "removeparam rules are kept out of the home engine (C08 known finding)".into(),
     ];
     // regression inputs first (in-process is fine: they are fixed)
     for (_n, c) in crate::run::regression_cases::<BufCase>("C10", "buf") {
